@@ -1,15 +1,69 @@
 #!/usr/bin/env python3
-"""Writes seeded/<name>/meta.json skeletons for seeds that lack one (fields filled by hand afterwards)."""
+"""Writes seeded/<name>/meta.json from the hand-written table below, the patch and detected.json
+(tools/seedmatrix.sh), and prints the markdown table used in DESIGN.md section 10.6."""
 import json, os, sys
 R = os.path.dirname(os.path.dirname(os.path.abspath(__file__)))
-for d in sorted(os.listdir(os.path.join(R, "seeded"))):
-    p = os.path.join(R, "seeded", d)
-    mp = os.path.join(p, "meta.json")
-    if os.path.exists(mp):
-        continue
-    demos = [f for f in os.listdir(p) if f.endswith("_test.go")]
-    files = sorted(set(l.split(" b/")[1].strip() for l in open(os.path.join(p, "patch.diff")) if l.startswith("diff --git")))
-    json.dump({"property": d[:3], "changed_files": files, "demonstration": demos, "needs_to_manifest": "see NOTES.md",
-               "confirmed": "tools/verify_seed.sh: applies to a fresh worktree of /repo HEAD, builds, pinned suite 410/410 passing, demonstration fails 3/3 with the change and passes 3/3 without",
-               "detected_by": []}, open(mp, "w"), indent=1)
-    print("meta", d)
+
+# what the change is, and what it needs to manifest
+INFO = {
+ "C01": ("writer.go: the one-shot record cursor is created once per batch instead of once per attempt", "RequiredAcks != None, MaxAttempts > 1, first attempt of a batch fails retriably after its request was encoded (temporary error code or connection cut): the retry sends nothing and WriteMessages returns nil"),
+ "C01b": ("writer.go (*Writer).produce: the record reader is cached on the writeBatch and shared by every attempt", "same trigger as C01 through a different site: a retried batch after a temporary produce error or a cut connection"),
+ "C02": ("message_reader.go readMessageV2: lengthRemain is decremented when a record's length is read, not when the record is complete", "a fetch response truncated inside the last record of a v2 batch: the compaction skip takes the partial record for compacted-away and the Reader never delivers it"),
+ "C02b": ("reader.go (*reader).run: the position is only advanced when read returns nil or io.EOF", "connection lost inside a key or value of a fetch response after at least one record of it was delivered: the Reader redials at the offset the interrupted fetch started from and re-delivers"),
+ "C03": ("reader.go commitOffsetsWithRetry: sleeps (zero back-off) before the first attempt too", "a synchronous CommitMessages overlapping Reader.Close: after stctx is cancelled the commit loop returns nil without sending OffsetCommit"),
+ "C04": ("write.go varIntLen: off by one at the 7-bit boundaries", "legacy Conn produce v3+/v7 with a key, value or header whose length (or a record count) sits on a varint boundary (64, 8192 ... bytes): the size prefix disagrees with the bytes written"),
+ "C05": ("protocol/record_v2.go: timestamp delta computed from the elapsed time.Duration instead of from millisecond timestamps", "Client.Produce / Writer with records whose sub-millisecond fractions decrease: a record is written 1 ms off"),
+ "C06": ("conn.go (*Conn).doRequest: the correlation id is computed before wlock is taken and stored only after the write", "two calls entering while a third is inside its network write: duplicate correlation ids on the wire, responses delivered to the wrong call"),
+ "C06b": ("conn.go (*Conn).doRequest: the correlation id is read before the write lock is taken (atomic load, later store)", "same mechanism as C06, produced independently (load before the lock, store after): one call inside its network write while two others start on the same Conn"),
+ "C07": ("writer.go awaitBatch: queue.Put of an expired batch moved outside ptw.mutex", "BatchTimeout expiring while another WriteMessages adds to the partition: the next batch is queued before the expired one (reordering)"),
+ "C08": ("writer.go awaitBatch: currBatch detached even when the expiring batch is not the current one", "a full batch flushed early followed by a new current batch when the old timer fires: the new batch is dropped from currBatch and never sent / sent late"),
+ "C09": ("writer.go (*Writer).spawn: group.Add moved inside the goroutine", "Close racing with the start of a partition writer: Close returns before accepted messages completed"),
+ "C09b": ("transport.go (*connGroup).grabConnOrConnect: the result of releaseConn is ignored for a connection whose requester has gone", "requester cancelled while ApiVersions is outstanding, then CloseIdleConnections, then the broker answers: the connection and its goroutine are never closed"),
+ "C10": ("batch.go (*Batch).Read: the mutex is released before the short-buffer rollback of batch.offset / batch.err", "Batch.Read with a buffer smaller than the value concurrent with Batch.Offset/Err/ReadMessage"),
+ "C10b": ("conn.go (*Conn).Seek: the SeekAbsolute short-cut compares with c.offset without the mutex", "Seek(off, SeekAbsolute) without SeekDontCheck concurrent with anything that writes the connection offset (another Seek, a Batch being read or closed)"),
+ "C11": ("conn.go (*Conn).readOffset: returns the broker error before the rest of the partition entry is read", "ListOffsets answered with a partition error, then any call on the same Conn: 16 bytes stay unread"),
+ "C12": ("transport.go (*connPool).sendRequest: brokerID >= 0 became brokerID > 0", "a request whose designated broker has id 0 while the bootstrap/cluster connection is another broker"),
+ "C12b": ("transport.go (*connPool).update: a broker counts as changed only when its host changed", "a broker id that keeps its host but changes port between two metadata refreshes: requests keep going to the old address"),
+ "C13": ("balancer.go (*Hash).Balance: the Hasher lock is released before Sum32", "user supplied Hasher shared by concurrent Balance calls, interleaved between Write and Sum32"),
+ "C14": ("groupbalancer.go RackAffinityGroupBalancer.assignTopic: leftover handling simplified", "rack groups where a zone has more partitions than consumers at the target load: a partition is assigned to nobody"),
+ "C15": ("consumergroup.go (*Generation).close: the number of running routines is read only when the generation was not yet closed", "a second close (Close during a rebalance) while a Start function is still winding down: Next hands out the next generation while it runs"),
+ "C15b": ("conn.go (*Conn).heartbeat: retriable error codes are returned inside the response with a nil error", "a Heartbeat answered with NotCoordinatorForGroup / GroupCoordinatorNotAvailable: the generation never ends, Next never advances"),
+ "C16": ("compress/snappy/xerial.go (*xerialReader).Reset: no longer clears the buffered output", "a pooled snappy reader closed with decoded bytes still buffered, then reused: the next stream starts with the previous stream's bytes"),
+ "C17": ("protocol/decode.go (*decoder).discard: io.Copy through a LimitReader instead of the reader's Discard", "Client.Fetch whose response is cut at least 17 bytes into the second or a later batch of the last partition's record set, connection ending with a clean EOF: nil error, partial records, and the dead connection is reused"),
+ "C18": ("dialer.go authenticateSASL: the error of the final SCRAM step is dropped", "SCRAM where the server's final message fails verification (wrong server signature / error in the last round): the connection is handed out as authenticated"),
+ "C19": ("protocol/listoffsets (*Response).Merge: the partitions slice is re-made in the error branch", "Client.ListOffsets over partitions of several leaders when a later leader is unreachable: healthy partitions disappear from the answer"),
+ "C19b": ("listoffset.go (*partitionOffsetV1).readFrom: returns at a non-zero error code before timestamp and offset are read", "a Conn offset query answered with a partition error, then any later query on the same Conn: stale bytes are read as the next response"),
+ "C20": ("protocol/decode.go (*decoder).read: the n < 0 guard is dropped", "flexible versions only: a compact string/bytes length or tagged-field size of 2^63 or more becomes a negative int and reaches make()"),
+}
+
+
+def main():
+    rows = []
+    for d in sorted(os.listdir(os.path.join(R, "seeded"))):
+        p = os.path.join(R, "seeded", d)
+        if d == "old" or not os.path.exists(os.path.join(p, "patch.diff")):
+            continue
+        demos = sorted(f for f in os.listdir(p) if f.endswith("_test.go"))
+        files = sorted(set(l.split(" b/")[1].strip() for l in open(os.path.join(p, "patch.diff")) if l.startswith("diff --git")))
+        det = {}
+        dp = os.path.join(p, "detected.json")
+        if os.path.exists(dp):
+            det = json.load(open(dp))
+        what, needs = INFO.get(d, ("see NOTES.md", "see NOTES.md"))
+        by = [{"check": k, "tier": "quick", "exit": v["exit"], "violation_lines": v["violation_lines"], "first_signature": v["first_signature"]} for k, v in sorted(det.items())]
+        race = " (demonstration run with -race)" if d.startswith("C10") else ""
+        meta = {"property": d[:3], "change": what, "changed_files": files, "demonstration": demos, "needs_to_manifest": needs,
+                "confirmed": "tools/verify_seed.sh in a fresh scratch worktree of /repo HEAD: patch applies, go build ./... passes, pinned suite 410/410 passing with the change, demonstration fails 3/3 with the change and passes 3/3 without" + race,
+                "ran_against_checks": "tools/seedmatrix.sh: git -C /repo apply patch.diff; bin/check <id> quick; git -C /repo checkout -- .",
+                "detected_by": by}
+        json.dump(meta, open(os.path.join(p, "meta.json"), "w"), indent=1)
+        caught = ", ".join("%s (%d)" % (b["check"], b["violation_lines"]) for b in by if b["violation_lines"] > 0) or "—"
+        missed = ", ".join(b["check"] for b in by if b["violation_lines"] == 0)
+        sig = next((b["first_signature"] for b in by if b["violation_lines"] > 0), "")
+        rows.append("| %s | %s | %s | %s%s | `%s` |" % (d, what, needs, caught, (" ; not by " + missed) if missed else "", sig.replace("|", "\\|")[:110]))
+    print("| seed | change | needs to manifest | caught by (VIOLATION lines, quick tier) | first signature |")
+    print("|------|--------|-------------------|------------------------------------------|-----------------|")
+    print("\n".join(rows))
+
+
+main()
